@@ -394,7 +394,7 @@ fn rand_qp(r: &mut Rng) -> Qp {
     let nv = 3; // check_qp probes three variables
     let num = |r: &mut Rng| r.pick(&[-4.0, -2.0, -1.5, -1.0, 0.5, 1.0, 2.0, 3.0]);
     let tri = |r: &mut Rng, diag_only: bool| -> Vec<(usize, usize, f64)> { let mut seen = BTreeSet::new(); let mut e = vec![]; for _ in 0..r.below(5) { let i = r.below(nv); let j = if diag_only { i } else { r.below(i + 1) }; if seen.insert((i, j)) { e.push((i, j, num(r))); } } e };
-    let ncon = if has_c { 1 + r.below(3) } else { 0 };
+    let ncon = if has_c { r.below(4) } else { 0 };     // a constraint type code with ZERO declared constraints is legal: all constraint sections are present and empty
     let q0 = if o == 'L' { vec![] } else { tri(r, o == 'D') };
     let mut qi = vec![]; if has_c && c != 'L' { for m in 0..ncon { for (i, j, v) in tri(r, c == 'D') { qi.push((m, i, j, v)); } } }
     let mut bi = vec![]; if has_c { let mut seen = BTreeSet::new(); for _ in 0..r.below(2 * ncon + 1) { let m = r.below(ncon); let i = r.below(nv); if seen.insert((m, i)) { bi.push((m, i, num(r))); } } }
